@@ -212,6 +212,8 @@ def run_linear(c, rec):
     mapkw = {"x0": A(c["x0"])} if c.get("map_x0") == "vector" else {}
     refused, xm = refuses(lambda: BP.MAP(disp=False, **mapkw))
     if refused:
+        # the only refusal the pinned tree makes: NotImplementedError when a covariance is not available in closed form
+        require(isinstance(xm, NotImplementedError), f"BayesianProblem.MAP raised {type(xm).__name__}: {xm}")
         rec.count("MAP_refused:" + type(xm).__name__)
     else:
         route = getattr(xm, "info", {}).get("solver", "?")
@@ -260,6 +262,7 @@ def run_linear(c, rec):
         refused, S = refuses(lambda: BP.sample_posterior(n + 2, callback=lambda s, i: log.append((i, np.array(s, dtype=float)))))
         consumed = len(E.reshape(-1)) - len(rng.q["normal"])
     if refused:
+        require(isinstance(S, NotImplementedError), f"BayesianProblem.sample_posterior raised {type(S).__name__}: {S}")
         rec.count("sample_refused:" + type(S).__name__)
         return
     direct = consumed == E.size and len(rng.calls) == n + 2 and all(cn[0] == "randn" for cn in rng.calls)
